@@ -22,6 +22,7 @@ int run_nodeinfo_conc(const vf::Args&);
 int run_collapse_micro(const vf::Args&);
 int run_perm_readers(const vf::Args&);
 int run_root_race(const vf::Args&);
+int run_preempt(const vf::Args&);
 
 int main(int argc, char** argv) {
     google::InitGoogleLogging(argv[0]);
@@ -80,6 +81,7 @@ int main(int argc, char** argv) {
     if (mode == "collapse_micro") { return run_collapse_micro(args); }
     if (mode == "perm_readers") { return run_perm_readers(args); }
     if (mode == "root_race") { return run_root_race(args); }
+    if (mode == "preempt") { return run_preempt(args); }
     fprintf(stderr, "unknown --mode %s\n", mode.c_str());
     return 2;
 }
